@@ -197,12 +197,16 @@ def run(ctx, sess):
                             from ..ir import path_of
                             dt_path = str(path_of(nd))
         if dt_path is None or ssb is None:
-            raise AnalysisBroken('data type path / sample size local not found in jls_wr_fsr_data')
+            if any(not o_['ok'] for o_ in ctx.obligations if o_['rule'] == 'C09.1'):
+                ctx.note('C09.2: the skip branch no longer selects by data type; a fill obligation already failed')
+                dt_path = None
+            else:
+                raise AnalysisBroken('data type path / sample size local not found in jls_wr_fsr_data')
         call = skip_calls[0]
         bad = []
         undecided = []
         okn = 0
-        for dt in dts:
+        for dt in (dts if dt_path is not None else ()):
             w = fd.call(psz, [dt])
             env = {dt_path: dt, ssb: w, 'data_length': 1}
             vals = values_at(P, f, call, call.args[2], env)
